@@ -132,6 +132,7 @@ def check(prop, tier):
            "states": st["distinct"], "transitions": st["generated"], "exhaustive": tier == "thorough",
            "explanation": "shape space: every field against an otherwise valid request, every pair of fields (triples in the "
                           "thorough tier), the full product for SignedHash requests"}
+    cov["discovery_protocol"] = member_note
     write_evidence(prop, tier, "exploration", cov, wall, len(violations),
                    ["handlers are called as Go methods with message structs built directly (incl. nil sub-messages), not decoded bytes",
                     "coverage-guided mutation of serialized requests is not attempted (different technique)", "TLC"])
